@@ -250,9 +250,12 @@ fn md5_mix(state: &mut [u32; 4], blocks: &[[u8; 64]]) {
     }
 }
 
+fn hex_stub<T: AsRef<[u8]>>(_d: T) -> String { String::new() }
+
 #[kani::proof]
 #[kani::unwind(70)]
 #[kani::stub(std::fmt::format, vio::fmt_stub)]
+#[kani::stub(hex::encode, hex_stub)]
 #[kani::stub(md5::compress::compress, md5_mix)]
 fn c08b_verify_accepts_iff_digest_matches() {
     use md5::{Digest, Md5};
